@@ -523,6 +523,15 @@ func genPlanOpt(seed uint64, prop string, cold bool) *Plan {
 		p.PreSched = append(p.PreSched, uint32(r.intn(8)))
 	}
 
+	// environment: clock speed and jumps, CPU count
+	p.TickNs = []int64{0, 1, 1000, 1000000, 1000000000}[r.intn(5)]
+	if r.chance(0.3) {
+		for i := 0; i < 8; i++ {
+			p.ClockJumps = append(p.ClockJumps, []int64{0, 1000000, 1000000000, 3600000000000, 0, 0}[r.intn(6)])
+		}
+	}
+	p.NumCPU = []int{1, 2, 4, 16}[r.intn(4)]
+
 	// pool faults
 	pMiss := []float64{0, 0, 0.1, 0.3, 1}[r.intn(5)]
 	pDrop := []float64{0, 0, 0.1, 0.3, 1}[r.intn(5)]
